@@ -148,6 +148,8 @@ func (w *World) LemmaObligation(lem *Lemma) (o *Obligation, err error) {
 			h.NoUnfold = true
 		case "fuel":
 			fmt.Sscanf(c.Text, "%d", &h.Fuel)
+		case "instdepth":
+			fmt.Sscanf(c.Text, "%d", &h.InstDepth)
 		case "timeout":
 			fmt.Sscanf(c.Text, "%d", &h.Timeout)
 		case "induction":
